@@ -332,6 +332,9 @@ def fake_callout_hook(I, finfo, selfv, args, kwargs, node):
     return NONE
 
 
+from .c01 import callout_walk_loops
+
+
 def check_callout_rendering(rep, prog):
     rule = "C03.R4.callout-json"
     where = "SRC.getCallouts"
@@ -355,13 +358,13 @@ def check_callout_rendering(rep, prog):
         rep.fail(rule, where, "od[...]", "Callout Count / Callouts missing")
         return
     items = list_items(I, lst[-1][1])
-    walk_loops = [L for L in I.loops.values() if L.func.endswith("getCallouts") and L.kind == "while"]
+    walk_loops = callout_walk_loops(I)
     ok = items is not None and len(items) == 1 and items[0][0] == "rep" and items[0][3] == TRUE and walk_loops
     if ok:
         Lr = items[0][1]
         src_list = Lr.iter
         # the list iterated for rendering is the list the walk appended to, and the count is its len()
-        walk_apps = [e for e in I.events[walk_loops[0].events[0]:walk_loops[0].events[1]] if e.kind == "append" and e.func.endswith("getCallouts")]
+        walk_apps = [e for e in I.events[walk_loops[0].events[0]:walk_loops[0].events[1]] if e.kind == "append" and not pelx.is_temp(I, e.data[0])]
         same = len(walk_apps) == 1 and walk_apps[0].data[0] == src_list and not Lr.breaks
         cnt_ok = cnt[-1][1] == I.x_len([src_list], {}, None)
         rep.check(same, "C03.R3.callouts", "Callouts renders one entry per walked callout, in order, no early exit", where, Lr.node,
